@@ -11,9 +11,12 @@ var stageBTypes = &TypeNames{Token: "Token", Error: "Error", Node: []string{"*hr
 // Token alias, the parser struct embedding lox, one recording action method
 // per rule-and-signature, optionally _onBounds, and the registration with the
 // harness runtime.
+// pkg is the name under which the package registers with the harness; the
+// package clause is ClauseOf(pkg).
 func (s *Spec) GoStageB(pkg, hrtImport string) (parserGo, registerGo string) {
+	clause := ClauseOf(pkg)
 	var sb strings.Builder
-	fmt.Fprintf(&sb, "package %s\n\nimport %q\n\n", pkg, hrtImport)
+	fmt.Fprintf(&sb, "package %s\n\nimport %q\n\n", clause, hrtImport)
 	sb.WriteString("type Token = hrt.Token\n\n")
 	sb.WriteString("type P struct {\n\tlox\n\th *hrt.Recorder\n}\n\n")
 	sb.WriteString("func convErrs(es []Error) []hrt.ErrLeaf {\n\tout := make([]hrt.ErrLeaf, len(es))\n\tfor i, e := range es {\n\t\tout[i] = hrt.ErrLeaf{Tok: e.Token, Expected: e.Expected}\n\t}\n\treturn out\n}\n\nvar _ = convErrs\n\n")
@@ -56,7 +59,7 @@ func (s *Spec) GoStageB(pkg, hrtImport string) (parserGo, registerGo string) {
 	parserGo = sb.String()
 	sb.Reset()
 	// register.go is added after lox ran and pass P4 appended __verifGlobals.
-	fmt.Fprintf(&sb, "package %s\n\nimport %q\n\n", pkg, hrtImport)
+	fmt.Fprintf(&sb, "package %s\n\nimport %q\n\n", clause, hrtImport)
 	sb.WriteString("func init() {\n\thrt.Register(&hrt.Pkg{\n")
 	fmt.Fprintf(&sb, "\t\tName: %q,\n", pkg)
 	sb.WriteString("\t\tParse: func(h *hrt.Recorder, lex hrt.Lexer) bool {\n\t\t\tp := &P{h: h}\n\t\t\treturn p.parse(lex)\n\t\t},\n")
@@ -70,4 +73,32 @@ func (s *Spec) GoStageB(pkg, hrtImport string) (parserGo, registerGo string) {
 	fmt.Fprintf(&sb, "\t\tOnBounds: %v,\n", s.OnBounds)
 	sb.WriteString("\t})\n}\n")
 	return parserGo, sb.String()
+}
+
+// SharedClause: every second simulated grammar package is called `parser` (in
+// its own directory <id>/parser): several packages with the same name and
+// different import paths linked into one program, as real projects have.
+func SharedClause(pkg string) bool {
+	n := 0
+	for _, c := range pkg {
+		if c >= '0' && c <= '9' {
+			n = n*10 + int(c-'0')
+		}
+	}
+	return n%2 == 1
+}
+
+func ClauseOf(pkg string) string {
+	if SharedClause(pkg) {
+		return "parser"
+	}
+	return pkg
+}
+
+// DirOf is the directory of the package below the grammar root.
+func DirOf(pkg string) string {
+	if SharedClause(pkg) {
+		return pkg + "/parser"
+	}
+	return pkg
 }
